@@ -525,12 +525,20 @@ def correspondence(ctx):
     ticket_tie(ctx, res, common.rng_for(ctx.seed, PID, 'labels'), 20000 if ctx.tier == 'quick' else 200000)
     res.exhaustive = False
     res.extra['target_lists_from_real_cascade'] = [list(map(list, t)) for t in real]
+    # the per-author settings (`pr_author_options`) are one of the sources of a bypass this property names: the
+    # real loader of the settings file (PrAuthorsOptions.deserialize) and PullRequestJob.author_bypass against
+    # Model/AuthorOptions.lean (theorem C04_author_options), oracle: an author gets exactly the bypasses of his own entry
+    from . import authoropts
+    authoropts.run(ctx, res, (2000 if ctx.tier == 'quick' else 50000) * ctx.scale)
     return res
 
 
 def replay(ctx, payload):
     res = Result()
     f = payload['failure']['input'] if 'failure' in payload else payload['no_longer_checks'][0]['first']['input']
+    if 'pr_author_options' in f:
+        from . import authoropts
+        return authoropts.replay(ctx, res, f)
     evaluate(ctx, res, [cell_of(f)], collect_samples=False)
     res.samples.append({'input': f, 'real': [k for k in res.distribution if k.startswith('outcome:')]})
     return res
